@@ -133,18 +133,37 @@ Definition hstep (h : hstate) (o : hop) : hstate * hres :=
   match o with
   | HRead n => h_read h n
   | HReadAt n off =>
+    (* remember the cursor, seek, read, seek back *)
     if negb (fl_read (hs_fl h)) then (h, RErr) else
-    match h_seek h off 0 with
-    | (h', ROff _) => h_read h' n
-    | (h', _) => (h', RErr)
+    match h_seek h 0 1 with
+    | (h0, ROff c) =>
+      match h_seek h0 off 0 with
+      | (h1, ROff _) =>
+        let '(h2, r) := h_read h1 n in
+        match h_seek h2 c 0 with
+        | (h3, ROff _) => (h3, r)
+        | (h3, _) => (h3, RErr)
+        end
+      | (h1, _) => (h1, RErr)
+      end
+    | (h0, _) => (h0, RErr)
     end
   | HSeek off w => h_seek h off w
   | HWrite d => if negb (fl_write (hs_fl h)) then (h, RErr) else h_write_at_cursor (to_end_if_append (enter_write h) d) d
   | HWriteAt d off =>
     if negb (fl_write (hs_fl h)) then (h, RErr) else
-    match h_seek (enter_write h) off 0 with
-    | (h', ROff _) => h_write_at_cursor h' d
-    | (h', _) => (h', RErr)
+    match h_seek (enter_write h) 0 1 with
+    | (h0, ROff c) =>
+      match h_seek h0 off 0 with
+      | (h1, ROff _) =>
+        let '(h2, r) := h_write_at_cursor h1 d in
+        match h_seek h2 c 0 with
+        | (h3, ROff _) => (h3, r)
+        | (h3, _) => (h3, RErr)
+        end
+      | (h1, _) => (h1, RErr)
+      end
+    | (h0, _) => (h0, RErr)
     end
   | HTruncate sz =>
     if negb (fl_write (hs_fl h)) || (sz <? 0)%Z then (h, RErr) else
